@@ -218,7 +218,7 @@ theorem stepFlat_timeout (orc : AuthOracle) (s : Server) (i : Nat) (cl : Client)
 
 theorem handleNormal_id (cfg : Cfg) (o : Option Nat) (cl : Client) (m : Msg) :
     (handleNormal cfg o cl m).1.id = cl.id := by
-  cases m <;> simp only [handleNormal, closeCl, setScale, handleExtClip] <;>
+  cases m <;> simp only [handleNormal, ptrDeliver, closeCl, setScale, handleExtClip] <;>
     (repeat' split) <;> rfl
 
 theorem handleHs_id (orc : AuthOracle) (cfg : Cfg) (cl : Client) (m : Msg) :
@@ -238,7 +238,7 @@ theorem handle_viewOnly (orc : AuthOracle) (cfg : Cfg) (o : Option Nat) (cl : Cl
     (handle orc cfg o cl m).2.2 = [] ∧ (handle orc cfg o cl m).1.viewOnly = true := by
   unfold handle
   split
-  · cases m <;> simp only [handleNormal, closeCl, setScale, handleExtClip, hv] <;>
+  · cases m <;> simp only [handleNormal, ptrDeliver, closeCl, setScale, handleExtClip, hv] <;>
       (repeat' split) <;> simp_all
   · cases m <;> simp only [handleHs, closeCl] <;> (repeat' split) <;> simp_all
 
